@@ -368,5 +368,67 @@ func judgeLines(c *Ctx, ls []*sdf.Line2, lat *lattice2, val func(i, j int) (floa
 		cs.Values = vals
 		c.Violate("", fmt.Sprintf("ms-crossing %s: %d endpoints are not the linear zero crossing of a straddling lattice edge (first %v: %s)", tag, bad, first, why), cs)
 	}
+	// the converse (completeness): every lattice edge whose two recorded end values straddle zero clearly (beyond the snap
+	// epsilon) must carry an endpoint - a renderer that evaluates a column but never turns it into segments is seen here
+	if bad == 0 && rep.NaN == 0 {
+		type key struct{ x, y int64 }
+		q := 1e-6 * cell
+		have := map[key]bool{}
+		for _, l := range ls {
+			for k := 0; k < 2; k++ {
+				have[key{int64(math.Round(l[k].X / q)), int64(math.Round(l[k].Y / q))}] = true
+			}
+		}
+		near := func(p v2.Vec) bool {
+			kx, ky := int64(math.Round(p.X/q)), int64(math.Round(p.Y/q))
+			for dx := int64(-1); dx <= 1; dx++ {
+				for dy := int64(-1); dy <= 1; dy++ {
+					if have[key{kx + dx, ky + dy}] {
+						return true
+					}
+				}
+			}
+			return false
+		}
+		cx, cy := lat.cells()
+		missing := 0
+		var firstMissing v2.Vec
+		checkEdge := func(a, b v2.Vec, va, vb float64) {
+			if (va < 0) == (vb < 0) || math.Abs(va) < 4*snapEps || math.Abs(vb) < 4*snapEps {
+				return
+			}
+			t := va / (va - vb)
+			p := v2.Vec{X: a.X + t*(b.X-a.X), Y: a.Y + t*(b.Y-a.Y)}
+			if !near(p) {
+				if missing == 0 {
+					firstMissing = p
+				}
+				missing++
+			}
+		}
+		for i := 0; i <= cx; i++ {
+			for j := 0; j <= cy; j++ {
+				v0, ok0 := val(i, j)
+				if !ok0 {
+					continue
+				}
+				if i < cx {
+					if v1, ok := val(i+1, j); ok {
+						checkEdge(lat.corner(i, j), lat.corner(i+1, j), v0, v1)
+					}
+				}
+				if j < cy {
+					if v1, ok := val(i, j+1); ok {
+						checkEdge(lat.corner(i, j), lat.corner(i, j+1), v0, v1)
+					}
+				}
+			}
+		}
+		c.Count("straddling_lattice_edges_checked_for_an_endpoint", 1)
+		if missing > 0 {
+			cs.Values = vals
+			c.Violate("", fmt.Sprintf("ms-incomplete %s: %d lattice edges whose sampled end values straddle zero carry no endpoint (first expected at %v)", tag, missing, firstMissing), cs)
+		}
+	}
 	return rep
 }
